@@ -41,6 +41,9 @@ func VerifC09Reuse() {
 
 	event := func(g *verifGen, typ auparse.AuditMessageType, tag string) ([]string, bool) {
 		ev := &aucoalesce.Event{Session: g.sid, Type: typ, Result: "success", Timestamp: verifrt.Unix(1)}
+		if typ == auparse.AUDIT_CRED_DISP && verifrt.Bool("disposal-reports-failure") {
+			ev.Result = "fail" // res=failed: the session is over all the same
+		}
 		ev.Process.PID = ps
 		ev.Summary.Action = tag
 		var expect []string
